@@ -72,6 +72,7 @@ where
     staging_buf: Vec<u8>,
     compression_buf: Vec<u8>,
     compression_level: CompressionLevelImpl,
+    is_finished: bool,
 }
 
 impl<W> Writer<W>
@@ -193,6 +194,7 @@ where
         let result = inner.write_all(&BGZF_EOF);
 
         self.position += BGZF_EOF.len() as u64;
+        self.is_finished = result.is_ok();
 
         result
     }
@@ -233,7 +235,8 @@ where
     W: Write,
 {
     fn drop(&mut self) {
-        if self.inner.is_some() {
+        // The stream is not finished again if `try_finish` already wrote the EOF block.
+        if self.inner.is_some() && !self.is_finished {
             let _ = self.try_finish();
         }
     }
@@ -246,6 +249,10 @@ where
     fn write(&mut self, buf: &[u8]) -> io::Result<usize> {
         let amt = self.remaining().min(buf.len());
         self.staging_buf.extend(&buf[..amt]);
+
+        if amt > 0 {
+            self.is_finished = false;
+        }
 
         if !self.has_remaining() {
             self.flush()?;
